@@ -69,6 +69,18 @@ def apply_op(world, op):
     return f(world["data"], component_index=ci, **kw)
 
 
+def edit_in_place(f):
+    for name in ("a", "b"):
+        arr = getattr(f, name, None)
+        if arr is None:
+            continue
+        try:
+            for i in range(len(arr)):
+                arr[i] = arr[i] * 1.5 + 0.25 + i
+        except TypeError:
+            pass
+
+
 def loss(f, world):
     return sum((float(f(d.x, d.t)) - d.p) ** 2 for d in world["data"].data)
 
@@ -95,6 +107,7 @@ def judge_history(case):
     v = []
     states = {c0}
     digests = []
+    kept = []
     for step, opi in enumerate(hist):
         st, res = core.call(apply_op, world, OPS[opi])
         c = canon.canon(world)
@@ -129,6 +142,16 @@ def judge_history(case):
                         break
                 if v:
                     break
+        if st == "ok" and not v:
+            # the caller owns what it was given: it edits the returned function IN PLACE (coefficient arrays included); no
+            # later result may carry that edit, and no later call may change this object again
+            edit_in_place(res)
+            kept.append((step, res, canon.result_digest(res)))
+    if not v:
+        for step, res, dg in kept:
+            if canon.result_digest(res) != dg:
+                v.append(core.viol("C16/earlier_result_changed", "the function returned by step %d of history %r (then edited by the caller) was changed by a later call" % (step, hist), history=hist))
+                break
     return core.result("history", digest=core.digest_of([name, hist, digests]), viol=v, states=len(states), transitions=len(digests) + (1 if v else 0),
                        traces=1, histories_creating_hidden_library_state=hidden, sample={"dataset": name, "history": [OPS[i][0] for i in hist], "result_digests": digests})
 
